@@ -523,7 +523,12 @@ def removal_check(case, obs):
 
 
 def strip(obs):
-    return {k: v for k, v in obs.items() if k in ('out', 'tasks', 'rows', 'resources', 'order')}
+    """what 'equal results' means for C06: outcome, dates, usage rows, and the resource list as a multiset (its order is the insertion
+    order of the scheduler object's first use, which no statement fixes)"""
+    d = {k: v for k, v in obs.items() if k in ('out', 'tasks', 'rows', 'order')}
+    if 'resources' in obs:
+        d['resources'] = sorted(obs['resources'], key=lambda x: (x is None, x))
+    return d
 
 
 # ------------------------------------------------------------------------------------ judging
